@@ -581,6 +581,62 @@ func c14Case(w *core.Worker, i int) {
 				viol("variable-changed", fmt.Sprintf("variables used as operands were %v and are now %v", resText(n0), resText(n1)))
 			}
 			exec("CLOSE curp14; DISPOSE CURSOR curp14; DISPOSE @n14; DISPOSE @m14; DISPOSE @g14;")
+			// value operands of statements that are no queries (environment variables, flags, PRINT / PRINTF / ECHO, EXECUTE,
+			// PREPARE .. USING, CHDIR): given as variables that are read again afterwards, as cells of the table, and as
+			// literals of one parsed tree executed twice
+			exec("VAR @s14 := 'text14'; VAR @i14 := 3; VAR @q14 := 'VAR @x14 := 1; DISPOSE @x14;'; VAR @fmt14 := '%s-%s'; VAR @dot14 := '.';")
+			o0 := exec("SELECT @s14, @i14, @q14, @fmt14, @dot14;")
+			t0 := exec("SELECT * FROM t;")
+			for _, text := range []string{
+				"SET @%ENV14 TO @s14; SELECT @%ENV14;", "SET @%ENV14 TO 'literal14'; SELECT @%ENV14;", "SET @%ENV14 TO @i14; SET @%ENV14B TO 14; SELECT @%ENV14, @%ENV14B;",
+				"SET @%ENV14 TO (SELECT c1 FROM t WHERE id = 2); SELECT @%ENV14;", "SET @%ENV14 TO @s14 || 'x'; UNSET @%ENV14;",
+				"PRINT @s14; PRINT 'literal14'; ECHO @s14; PRINTF @fmt14 USING @s14, @i14; PRINTF '%s|%d' USING 'literal14', 14;",
+				"EXECUTE @q14; EXECUTE 'VAR @y14 := 2; DISPOSE @y14;'; EXECUTE 'SELECT %s' USING @s14;",
+				"PREPARE p14 FROM 'SELECT ?, ?'; EXECUTE p14 USING @s14, @i14; EXECUTE p14 USING 'literal14', 14; DISPOSE PREPARE p14;",
+				"PREPARE p14 FROM @q14; DISPOSE PREPARE p14;", "CHDIR @dot14; CHDIR '.';",
+				"SET @@LIMIT_RECURSION TO @i14; SET @@LIMIT_RECURSION TO 1000; SET @@WAIT_TIMEOUT TO @i14; SET @@WAIT_TIMEOUT TO 10; SET @@TIMEZONE TO 'UTC'; SET @@DATETIME_FORMAT TO @s14; SET @@DATETIME_FORMAT TO '';",
+				"ADD @s14 TO @@DATETIME_FORMAT; REMOVE @s14 FROM @@DATETIME_FORMAT; ADD 'literal14' TO @@DATETIME_FORMAT; REMOVE 'literal14' FROM @@DATETIME_FORMAT;",
+				"VAR @c14 := 0; WHILE @c14 < 3 DO SET @%ENV14 TO 'loop14'; @c14 := @c14 + 1; END WHILE; SELECT @%ENV14, @c14; DISPOSE @c14;",
+			} {
+				parsed, _, perr := parser.Parse(text, "", false, false)
+				if perr != nil {
+					continue
+				}
+				d0 := astDigest(parsed)
+				r1 := s.ExecStmts(parsed)
+				exec("SELECT 'a' || 'b', 'c' || 'd', 'e' || 'f', 41 + 1, 7 * 6;") // texts and integers allocated in between
+				d1 := astDigest(parsed)
+				r2 := s.ExecStmts(parsed)
+				exec("SELECT 'g' || 'h', 'i' || 'j', 1000 - 958;")
+				d2 := astDigest(parsed)
+				stmts = append(stmts, "(parsed once, executed twice) "+text)
+				if d0 != d1 || d1 != d2 {
+					viol("syntax-tree-modified", "the structural digest of "+truncateStr(text, 80)+" changed when it was executed")
+				}
+				if r1.Err == nil && !same(r1, r2) {
+					viol("repeat-differs:same-tree", "executing "+truncateStr(text, 80)+" twice gave different results")
+				}
+				for _, rr := range []core.ExecResult{r1, r2} {
+					for _, v := range rr.Views {
+						for _, row := range v.Rows {
+							for _, c := range row {
+								if isSentinel(c) {
+									viol("use-after-discard", "a discarded value was returned by "+truncateStr(text, 80))
+								}
+							}
+						}
+					}
+				}
+				if o1 := exec("SELECT @s14, @i14, @q14, @fmt14, @dot14;"); !same(o0, o1) {
+					viol("variable-changed", fmt.Sprintf("variables used as operands of %s were %v and are now %v", truncateStr(text, 60), resText(o0), resText(o1)))
+					break
+				}
+				if t1 := exec("SELECT * FROM t;"); !same(t0, t1) {
+					viol("row-changed-by-evaluation", "the table read by "+truncateStr(text, 60)+" shows other rows afterwards")
+					break
+				}
+			}
+			exec("UNSET @%ENV14; UNSET @%ENV14B; DISPOSE @s14; DISPOSE @i14; DISPOSE @q14; DISPOSE @fmt14; DISPOSE @dot14;")
 			// rows derived from the cached table before a change (a view materialised from it, an open cursor, a variable)
 			// are only read by the later UPDATE of the table: they keep their values
 			exec("UPDATE t SET c1 = c1 WHERE id = 1;") // the table is now held as an updatable cached copy
